@@ -46,7 +46,7 @@ def cases(tier, rng):
             pos = rng.sample(range(sep + 1, len(a)), k)
             if rng.random() < 0.3: pos[0] = len(a) - 1 - rng.randrange(6)
             for i in pos:
-                s[i] = rng.choice([c for c in refbech32.CH if c != s[i]])
+                s[i] = rng.choice([c for c in refbech32.CH if c != s[i]]) if rng.random() < 0.93 else rng.choice("bio1BIO _-\x7f\u00e9")
             s = "".join(s)
         elif r < 0.58:
             i = rng.randrange(len(a)); s = a[:i] + a[i].upper() + a[i + 1:]
@@ -54,10 +54,22 @@ def cases(tier, rng):
             s = a.upper()
         elif r < 0.7:
             s = refbech32.encode(rng.choice([h for h in ("bc", "tb", "bcrt", "ltc") if h != HRP[net]]), ver, prog)
+        elif r < 0.74:
+            # same data, checksum that verifies for the OTHER variant (bech32 <-> bech32m swap)
+            s = refbech32.raw_encode(HRP[net], [ver] + refbech32.to5(prog), refbech32.M if ver == 0 else 1)
         elif r < 0.78:
-            # checksum of the other variant
-            other = refbech32.encode(HRP[net], 1 - ver if ver in (0, 1) else 0, prog)
-            s = a[:sep + 1] + a[sep + 1] + other[sep + 2:]
+            # well-formed checksum (of the right or of a random variant) over ill-formed content
+            const = rng.choice([1, refbech32.M, 1 if ver == 0 else refbech32.M, 1 if ver == 0 else refbech32.M])
+            q = rng.randrange(9); d5 = refbech32.to5(prog); v = ver
+            if q == 0: v = rng.randrange(17, 32)                                   # witness version above 16
+            elif q == 1: d5 = refbech32.to5(bytes(rng.getrandbits(8) for _ in range(rng.choice([1, 2, 19, 21, 31, 33, 40, 41, 45]))))
+            elif q == 2: d5 = d5[:-1] + [d5[-1] | rng.choice([1, 2, 3])]          # non-zero padding bits
+            elif q == 3: d5 = d5 + [0]                                             # a whole extra padding group
+            elif q == 4: d5 = d5[:-1]                                              # a group short
+            elif q == 5: d5 = []                                                   # version only
+            elif q == 6: v = rng.randrange(2, 17)                                  # other version, right variant for it
+            elif q == 7: d5 = refbech32.to5(bytes(rng.getrandbits(8) for _ in range(rng.choice([46, 50, 60]))))  # > 90 chars
+            s = refbech32.raw_encode(HRP[net], [v] + d5, const) if q != 8 else refbech32.raw_encode(HRP[net], [], const)
         elif r < 0.86:
             s = rng.choice([a[:-1], a + "q", a[:sep] + a[sep + 1:], a[:sep + 1] + a[sep + 2:], a + a[-1]])
         elif r < 0.93:
